@@ -88,26 +88,77 @@ def run(f, fixture, rep, cfg, tier):
 
     b = f.one("Package::verify_signature")
     tb = TermBuilder(b)
-    verify_calls = [c for c in b.calls() if c.decl == VERIFY]
+    # closures of verify_signature belong to it (e.g. a loop rewritten as try_for_each)
+    closures = []
+    work = list(f.closures_of(b))
+    while work:
+        cb = work.pop()
+        closures.append(cb)
+        work += f.closures_of(cb)
+    tbs = {b.path: tb}
+    for cb in closures:
+        tbs[cb.path] = TermBuilder(cb, closure_env=True)
+    verify_calls = [c for c in b.calls() if c.decl == VERIFY] + [c for cb in closures for c in cb.calls() if c.decl == VERIFY]
+
+    def closure_must_verify(cb):
+        """Every Ok(..)-capable return of the closure passes a verify call whose verdict it returns/propagates."""
+        def oc(c, flags):
+            return ("verify",) if c.decl == VERIFY else ()
+        ex2 = PathExplorer(cb, oc)
+        fins = ex2.run()
+        for n in fins:
+            r = n[4]
+            if r == "err":
+                continue
+            if r is not None and r.startswith("call:") and r[5:] == VERIFY:
+                continue
+            if "verify" not in n[2]:
+                return False
+        return bool(fins)
+    verifying_closures = {cb.path for cb in closures if closure_must_verify(cb)}
     rep.floor("R1", "Verifying::verify call sites in verify_signature", len(verify_calls), 4)
     digest_calls = [c for c in b.calls() if c.decl.endswith("Package::verify_digests")]
     rep.check(len(digest_calls) >= 1, "R3", "digests|called", "verify_digests is called", "verify_signature no longer calls verify_digests", b.span)
 
     # ---- R1 / R3 path-sensitive --------------------------------------------------------
+    ITER_ALL = ("std::iter::Iterator::try_for_each", "std::iter::Iterator::try_fold")
+
     def on_call(c, flags):
         if c.decl == VERIFY:
             return ("verify",)
         if c.decl.endswith("Package::verify_digests"):
             return ("digests",)
+        if c.decl in ITER_ALL:
+            # `iter.try_for_each(closure)`: if the closure verifies on every Ok return, the call verifies every
+            # element - and at least one exists when the collection was tested non-empty on this path
+            cl = None
+            for lf in b.origins(c.args[-1], passthrough={}):
+                if lf["kind"] == "agg" and lf["stmt"]["rv"].get("ak") == "closure":
+                    cl = lf["stmt"]["rv"]["closure"]
+            if cl in verifying_closures:
+                from engine import PASS_THROUGH
+                K = canon(b, c.args[0], PASS_THROUGH)
+                return ("verify-if-nonempty:%s" % (K,),)
         return ()
 
     ex = PathExplorer(b, on_call)
     finals = ex.run()
     rep.count("states_explored", ex.states)
     rep.count("branches_pruned_by_predicates", ex.pruned)
-    ok_finals = [n for n in finals if n[4] == "ok"]
+
+    def state_verified(n):
+        if "verify" in n[2]:
+            return True
+        for fl in n[2]:
+            if fl.startswith("verify-if-nonempty:"):
+                for fact in n[1]:
+                    if fact[0] == "empty" and fact[2] is False and str(fact[1]) == fl[len("verify-if-nonempty:"):]:
+                        return True
+        return n[4] is not None and n[4] == "call:" + VERIFY
+    # a Result handed back straight from a call may be Ok: it counts as a success return
+    ok_finals = [n for n in finals if n[4] == "ok" or (n[4] or "").startswith("call:")]
     rep.check(len(ok_finals) >= 1, "R1", "has-success", "verify_signature has a success return", "no success path found (anchor)", b.span)
-    bad_v = [n for n in ok_finals if "verify" not in n[2]]
+    bad_v = [n for n in ok_finals if not state_verified(n)]
     bad_d = [n for n in ok_finals if "digests" not in n[2]]
     if bad_v:
         tr = ex.trace(bad_v[0])
@@ -133,10 +184,12 @@ def run(f, fixture, rep, cfg, tier):
 
     # ---- R2 binding verdicts ---------------------------------------------------------------
     for i, c in enumerate(verify_calls):
-        uses = [u for u in b.uses(c.dest["l"]) if u[2] != "drop"]
-        via_q = any(isinstance(u[2], tuple) and b.call_at(u[0]).decl == "std::ops::Try::branch" for u in uses)
+        ob = c.body
+        otb = tbs[ob.path]
+        uses = [u for u in ob.uses(c.dest["l"]) if u[2] != "drop"]
+        via_q = any(isinstance(u[2], tuple) and ob.call_at(u[0]).decl == "std::ops::Try::branch" for u in uses)
         returned = c.dest["l"] == 0
-        st = sig_tag(tb.term(c.args[2]))
+        st = sig_tag(otb.term(c.args[2]))
         tag = st[1] if st else "unknown#%d" % i
         rep.check(via_q or returned, "R2", "binding|%s" % tag, "the verdict for %s is `?`-propagated" % tag,
                   "the verifier's verdict for %s is not binding (not `?`-propagated nor returned)" % tag, c.loc())
@@ -144,9 +197,10 @@ def run(f, fixture, rep, cfg, tier):
     # ---- R4 coverage table -------------------------------------------------------------------
     seen_tags = set()
     for i, c in enumerate(verify_calls):
-        st = sig_tag(tb.term(c.args[2]))
+        otb = tbs[c.body.path]
+        st = sig_tag(otb.term(c.args[2]))
         if not rep.check(st is not None, "R4", "sig-origin|#%d" % i, "signature argument comes from a signature tag getter",
-                         "the signature passed to the verifier does not come from a signature-header tag: %s" % render(tb.term(c.args[2]))[:200], c.loc()):
+                         "the signature passed to the verifier does not come from a signature-header tag: %s" % render(otb.term(c.args[2]))[:200], c.loc()):
             continue
         getter, tag, decoded, recv = st
         seen_tags.add(tag)
@@ -158,17 +212,17 @@ def run(f, fixture, rep, cfg, tier):
                   "%s read with %s from %s" % (tag, getter, recv), c.loc())
         rep.check(decoded == (tag == "RPMSIGTAG_OPENPGP"), "R4", "sig-decode|%s" % tag, "%s %s" % (tag, "base64-decoded" if decoded else "used raw"),
                   "%s is %s" % (tag, "not base64-decoded" if not decoded else "unexpectedly base64-decoded"), c.loc())
-        got = data_term(tb.term(c.args[1]))
+        got = data_term(otb.term(c.args[1]))
         rep.check(got == want_data, "R4", "data|%s" % tag, "%s is verified over %s" % (tag, want_data),
                   "%s is verified over %s, but it covers %s" % (tag, got, want_data), c.loc())
     for tag in COVER:
         rep.check(tag in seen_tags, "R4", "tag-consulted|%s" % tag, "%s is consulted" % tag, "%s is never presented to the verifier" % tag, b.span)
 
     # ---- R7 decode errors ----------------------------------------------------------------------
-    dec = [c for c in b.calls() if c.decl.endswith("decode_sig")]
+    dec = [c for c in b.calls() if c.decl.endswith("decode_sig")] + [c for cb in closures for c in cb.calls() if c.decl.endswith("decode_sig")]
     rep.check(len(dec) >= 1, "R7", "decode|present", "OpenPGP entries are base64-decoded", "decode_sig is no longer called", b.span)
     for c in dec:
-        via_q = any(isinstance(u[2], tuple) and b.call_at(u[0]).decl == "std::ops::Try::branch" for u in b.uses(c.dest["l"]))
+        via_q = any(isinstance(u[2], tuple) and c.body.call_at(u[0]).decl == "std::ops::Try::branch" for u in c.body.uses(c.dest["l"]))
         rep.check(via_q, "R7", "decode|propagated", "decode errors are `?`-propagated", "a base64 decode error is not propagated", c.loc())
 
     # ---- R6 pgp verifier --------------------------------------------------------------------------
